@@ -193,3 +193,29 @@ def install_spec_builtins(eng):
             raise SpecError("FlatLen of a list without flat length")
         return VInt(v.flat)
     eng.spec_builtins["FlatLen"] = VFunc("FlatLen", flatlen)
+
+
+LIB_CLASSES["numpy.ndarray"] = {"bases": ["object"]}
+LIB_CLASSES["torch.Tensor"] = {"bases": ["object"]}
+
+
+@lib("torch.is_tensor")
+def _is_tensor(args, kwargs, st, eng):
+    v = eng.deref(args[0], st)
+    if isinstance(v, VSeq) and v.kind is not None:
+        return VBool(v.kind == 1)
+    return VBool(False)
+
+
+def _as_kind(kind):
+    def f(args, kwargs, st, eng):
+        v = eng.as_seq(args[0], st)
+        r = VSeq(v.len, v.elem, v.etype)
+        r.kind = z3.IntVal(kind)
+        return r
+    return f
+
+
+LIB["torch.tensor"] = _as_kind(1)
+LIB["torch.from_numpy"] = _as_kind(1)
+LIB["numpy.array"] = _as_kind(2)
